@@ -18,7 +18,7 @@ RULE = ("ilp on n <= 6 items (values <= 200), 1-4 bins, five objectives; option 
 ASSUMPTIONS = ["values <= 200 (the property's solver envelope); a mismatch that disappears with CBC preprocessing off is inconclusive(solver)",
                "equal weights: 'never change the result' is read as same optimal value, same copies, ascending sums (the partition may differ among equally optimal ones)",
                "non-uniform weights: open finding KF-ilp-weights (classifier: result is the optimum of the restricted model up to a permutation of bins)"]
-FLOORS = {"quick": {"distinct_nontrivial": 800}, "thorough": {"distinct_nontrivial": 8000}}
+FLOORS = {"quick": {"distinct_nontrivial": 500}, "thorough": {"distinct_nontrivial": 2500}}
 W_POOL = (1, 2, 3, 5, 10, 0.5)
 
 
